@@ -127,7 +127,8 @@ CHECKS = {
              "degree whose residual meets the request, every lower permitted degree having been fitted and found insufficient; a silent "
              "return implies both the node and the double-sampled residual are within the request; a reported error above the request "
              "always comes with a warning; the reported error is never below either residual; CD.(u+A, v+B) reproduces the fitted "
-             "polynomials for every coefficient list with det CD != 0; the stored keyword set is exactly mindeg < i+j <= degree. Tied by AST "
+             "polynomials for every coefficient list with det CD != 0; the stored keyword set is exactly mindeg < i+j <= degree; FITS axis numbers "
+             "of the pair with/without keep_axis_position, no keyword written twice, NAXIS from the boxes of the pair's own pixel axes. Tied by AST "
              "pins and by driving the real _fit_2D_poly with scripted fits through every branch against the model evaluated in Coq. PARTIAL: "
              "the numerical accuracy of the LU fit and wcslib's reading of the header are measured on a dense grid (tested), not proved.",
         ref="5 C10", technique="Coq proof over rationals (hand model) + AST pins + scripted-fit correspondence + wcslib dense-grid differential"),
@@ -156,7 +157,8 @@ CHECKS = {
     "C11": dict(
         text="Theorems over the rationals about the -TAB bookkeeping: node_exact (the FITS reader's index at the pixel of node k is "
              "exactly k+1 for every box and sampling: the tabulated value, no interpolation), table_spans_box, index_affine, "
-             "degenerate_cdelt, naxis_covers. Tied by AST pins and by comparing NAXISi/CRPIXi/node counts of every exported header with "
+             "degenerate_cdelt, naxis_covers, pc_row_selects_axis (the PC row of a tabulated axis is the unit vector of its image axis, degenerate "
+             "axes included). Tied by AST pins and by comparing NAXISi/CRPIXi/node counts of every exported header with "
              "the model evaluated in Coq; the exported (header, table) is loaded into wcslib and evaluated at EVERY node and random "
              "in-box points against the WCS. PARTIAL between nodes (interpolation error tested).",
         ref="5 C11", technique="Coq proof over rationals (hand model) + AST pins + header correspondence + wcslib differential"),
